@@ -85,6 +85,25 @@ func emitSelftest(repo string, sp *spec, dir string) (err error) {
 	// imports used by a declaration; false if one is outside the standard library
 	usesOnlyStd := func(p *pkgInfo, n ast.Node) bool {
 		ok := true
+		// the zero-copy casts of slog-agent/util are ordinary conversions here (the translation treats them as the
+		// identity on list N; aliasing is not represented on either side)
+		ast.Inspect(n, func(n ast.Node) bool {
+			if call, isCall := n.(*ast.CallExpr); isCall {
+				if sel, isSel := call.Fun.(*ast.SelectorExpr); isSel {
+					if id, isId := sel.X.(*ast.Ident); isId {
+						if pn, isPkg := p.info.Uses[id].(*types.PkgName); isPkg && pn.Imported().Path() == "github.com/relex/slog-agent/util" {
+							switch sel.Sel.Name {
+							case "StringFromBytes":
+								call.Fun = &ast.Ident{Name: "string", NamePos: call.Pos()}
+							case "BytesFromString":
+								call.Fun = &ast.ArrayType{Lbrack: call.Pos(), Elt: &ast.Ident{Name: "byte"}}
+							}
+						}
+					}
+				}
+			}
+			return true
+		})
 		ast.Inspect(n, func(n ast.Node) bool {
 			if id, isId := n.(*ast.Ident); isId {
 				if pn, isPkg := p.info.Uses[id].(*types.PkgName); isPkg {
@@ -182,7 +201,7 @@ func emitSelftest(repo string, sp *spec, dir string) (err error) {
 						conv = fmt.Sprintf("append([]byte(nil), a[%d].b...)", idx)
 					}
 				case kInt:
-					conv = fmt.Sprintf("a[%d].i", idx)
+					conv = fmt.Sprintf("int(a[%d].i)", idx)
 				case kByte:
 					conv = fmt.Sprintf("byte(a[%d].i)", idx)
 				case kBool:
